@@ -221,12 +221,17 @@ Fixpoint drun_all (cols : Z) (anims : list (style * dstate)) (nows : list Z)
 (* the rows the animations of a display live in *)
 Definition rows_of (anims : list (style * dstate)) : list Z := map (fun a => d_row (snd a)) anims.
 
-(* ---- tick injection (parser.py 4366-4371 + emitter.py 1528-1563).
-   A call site of lcd.animate is (lcd name, style).  [emit] walks setup_body first and gives each
-   site the state variable __redu_lcd_anim_<name>_<k>, k counting the sites of that name seen so
-   far; then it walks loop_body, whose head is one LCDTick per name in sorted(lcd_tick_names).
-   An LCDTick emits one tick call for every variable of that name registered *at that moment*,
-   i.e. the setup sites only: sites that occur later in the loop body are registered afterwards. *)
+(* ---- tick injection (parser.py: lcd_tick_names / LCDTick; emitter.py: emit() registration pass,
+   LCDAnimate and LCDTick branches of _emit_block).
+   A call site of lcd.animate is (lcd name, style).  Before it emits any statement, [emit] walks
+   setup_body, then loop_body, then the bodies of the functions, and gives each site the state
+   variable __redu_lcd_anim_<name>_<k>, k counting the sites of that name met so far.  The head of
+   loop_body is one LCDTick per name in sorted(lcd_tick_names); an LCDTick emits one tick call for
+   every registered variable of that name - all of them, since registration is complete before the
+   first statement is emitted.  (Until the repair recorded as F-C18-animate-in-loop-never-ticked the
+   variables were registered while the statements were emitted, so the LCDTick saw the setup sites
+   only.)  Below, [setup_sites] are the sites before the main loop and [loop_sites] the ones
+   registered after them: main-loop body, then function bodies in definition order. *)
 Definition site := (Z * style)%type.
 
 Fixpoint registered (name : Z) (k : Z) (sites : list site) : list (Z * Z * style) :=
@@ -247,10 +252,10 @@ Definition sorted_set (l : list Z) : list Z := fold_right insert_sorted [] l.
 
 (* the tick calls at the head of loop(): (lcd name, variable index, style) in emission order *)
 Definition loop_ticks (setup_sites loop_sites : list site) : list (Z * Z * style) :=
-  flat_map (fun name => registered name 0 setup_sites)
+  flat_map (fun name => registered name 0 (setup_sites ++ loop_sites))
            (sorted_set (map fst (setup_sites ++ loop_sites))).
 
-(* every variable the program declares: setup sites then loop sites, counters continuing *)
+(* every variable the program declares, grouped by display: setup sites then loop sites, counters continuing *)
 Definition all_vars (setup_sites loop_sites : list site) : list (Z * Z * style) :=
   flat_map (fun name => registered name 0 (setup_sites ++ loop_sites))
            (sorted_set (map fst (setup_sites ++ loop_sites))).
